@@ -17,16 +17,16 @@ func (fx *fctx) evalBinary(st *State, x *ast.BinaryExpr) *Value {
 			// the right operand may have effects: fork
 			s1 := st.clone()
 			if x.Op == token.LAND {
-				s1.assume(l)
+				s1.branch(l)
 			} else {
-				s1.assume(ts.Not(l))
+				s1.branch(ts.Not(l))
 			}
 			r := fx.evalBool(s1, x.Y)
 			s2 := st.clone()
 			if x.Op == token.LAND {
-				s2.assume(ts.Not(l))
+				s2.branch(ts.Not(l))
 			} else {
-				s2.assume(l)
+				s2.branch(l)
 			}
 			m := e.merge([]*State{s1, s2})
 			*st = *m
